@@ -87,3 +87,10 @@ Proof.
   rewrite qname_split_pattern_ok, qname_prefix_first_ok. cbn [ofact parse].
   destruct c; [apply parse_build_cluster|apply parse_build_default]; auto.
 Qed.
+
+(** C17: store() remembers the full merged index on in-process partition objects, and accepts
+    such objects (InMemoryPartition / OnDiskPartition stored before) as merge parents *)
+Lemma partition_parent_full_index_ok : partition_parent_full_index = Some true.
+Proof. vm_compute. reflexivity. Qed.
+Lemma partition_inprocess_parent_ok : partition_inprocess_parent = Some true.
+Proof. vm_compute. reflexivity. Qed.
